@@ -426,6 +426,9 @@ func runC08(c *Ctx) {
 	for _, d := range gmLexerDirs {
 		checkScanTable(c, p, d, "R08.2")
 	}
+	// the table-shape fact the tiling argument rests on (F3): every live state that is not an
+	// ignore state records `end`, because the writer leaves Accept = 0 (INVALID) there, never -1
+	checkActTabWriter(c, p, "R08.3")
 	c.Assumptions = append(c.Assumptions,
 		"utf8.DecodeRune returns a rune other than -1 and a size >= 1 whenever input is left",
 		"the emitted tables satisfy R01.3/R01.4 (every live non-ignore state has Accept != -1; Accept = -1 implies Ignore != \"\") — decided under C01",
